@@ -66,8 +66,11 @@ Definition free (d : db) (t x : N) : bool :=
 
 Definition clamp (o : op) (v : N) : N := N.min (N.max v (o_min o)) (o_max o).
 
-(* (ts as u32).saturating_sub(start).saturating_mul(3) *)
-Definition reuse_secs (t : N) (r : row) : N := sat_mul 32 (sat_sub t (r_start r)) 3.
+(* max((ts as u32).saturating_sub(start).saturating_mul(3), expiry.saturating_sub(ts as u32)):
+   three times the time since the lease started, but never less than what is left of
+   the lease the client was already told (repair of observation O1) *)
+Definition reuse_secs (t : N) (r : row) : N :=
+  N.max (sat_mul 32 (sat_sub t (r_start r)) 3) (sat_sub (r_expiry r) t).
 (* 2 * (expiry - start) as u64 *)
 Definition revive_secs (r : row) : N := 2 * (r_expiry r - r_start r).
 
@@ -158,6 +161,34 @@ Fixpoint run_from (s : state) (h : list event) : option state :=
   | e :: h' => match step s e with Some s' => run_from s' h' | None => None end
   end.
 Definition run (h : list event) : option state := run_from ([], []) h.
+
+(* Histories in which a reply may be LOST (crash between the INSERT and the send, packet
+   loss, a duplicate ACK the client discards): the step happens, the store changes, but
+   the client never learns of the grant, so it is not logged as held. *)
+Definition step_lossy (s : state) (el : event * bool) : option state :=
+  let '(e, lost) := el in
+  match step s e with
+  | Some (d', log') => Some (d', if lost then snd s else log')
+  | None => None
+  end.
+Fixpoint run_lossy_from (s : state) (h : list (event * bool)) : option state :=
+  match h with
+  | [] => Some s
+  | el :: h' => match step_lossy s el with Some s' => run_lossy_from s' h' | None => None end
+  end.
+Definition run_lossy (h : list (event * bool)) : option state := run_lossy_from ([], []) h.
+
+(* as wf_from, with one configured maximum M for the whole history *)
+Fixpoint wf_lossy_from (M now : N) (h : list (event * bool)) : bool :=
+  match h with
+  | [] => true
+  | (EAlloc o t1 t2 _, _) :: h' =>
+      (now <=? t1) && (t1 <=? t2) && (t2 + M <? pow2 32) && (o_min o <=? o_max o) && (o_max o =? M)
+      && wf_lossy_from M t2 h'
+  | (ETick d, _) :: h' => wf_lossy_from M (now + d) h'
+  | (ERestart, _) :: h' => wf_lossy_from M now h'
+  end.
+Definition wf_lossy (M : N) (h : list (event * bool)) : bool := wf_lossy_from M 0 h.
 
 (* times sorted, no u32 wrap, sane bounds *)
 Fixpoint wf_from (now : N) (h : list event) : bool :=
